@@ -11,22 +11,22 @@ CHECKS = {
  "C01": ("exploration", "trace validation over position classes (DfolsTrace.tla) + BaseShift.tla small-float model",
          "Every residual-function call and the returned x of a generated corpus (x0 placements x bound kinds x scaling x restarts x regression/growing x regulariser x projections) is classified against the caller's own bound arrays with exact binary64 comparisons by the recorder; the trace specification requires every class to be inside. Exploration level: the inequality itself cannot be decided by TLC.",
          "recorder wrappers are pass-through; corpus classes fixed, VERIF_SEED concretises", "5 C01"),
- "C02": ("model_checking", "TLC on Dfols.tla (budget/counter invariants, all budgets x exit sites) + trace validation with budget sweeps",
+ "C02": ("model_checking", "TLC on Dfols.tla (budget/counter invariants, all budgets x exit sites) + Budget.tla inductive invariant (Apalache) + trace validation with budget sweeps + driven replay (spec -> code) + DfolsCtl.tla (code -> spec: recorded runs are behaviours of Dfols.tla)",
          "TLC explores Dfols.tla exhaustively for small constants (every value ordering incl. NaN, every budget position, soft/hard restarts, 1-2 samples) with the C02 invariants; real runs with maxfun swept over every value up to the reference cost are validated event by event against DfolsTrace.tla (call index, the code's own log numbering, batches, counters threaded through runs).",
          "small constants in the exhaustive model; numerical kernels abstracted", "5 C02"),
- "C03": ("model_checking", "TLC on Dfols.tla/DfolsModel.tla (slot designates its evaluation) + trace validation with per-slot identity classes",
+ "C03": ("model_checking", "TLC on Dfols.tla/DfolsModel.tla (slot designates its evaluation) + trace validation with per-slot identity classes + driven replay + DfolsCtl.tla",
          "Invariants C03_EveryIter/C03_Returned model-checked over all restart histories within bounds; on real traces every Model method call is predicted by the DfolsModel operators and each slot / the saved slot / the result must designate the recorded evaluation it names.",
          "identity classes use 256 eps (points) and 1e-12 (residual means) tolerances", "5 C03"),
- "C04": ("model_checking", "TLC on Dfols.tla (best-kept invariants) + trace validation in rank space",
+ "C04": ("model_checking", "TLC on Dfols.tla (best-kept invariants) + trace validation in rank space + driven replay + DfolsCtl.tla",
          "C04_BestKept/C04_EveryIter/C04_Monotone model-checked with every evaluation in turn the best on every exit path; real deterministic runs (incl. convex-constrained and fault overlays) validated with exact rank comparisons of recomputed objectives.",
          "deterministic objective, one sample (as the property states); regularised runs compared with 1e-12 relative slack", "5 C04"),
- "C08": ("model_checking", "TLC on Dfols.tla with NaN/Inf values + fault-script trace validation",
+ "C08": ("model_checking", "TLC on Dfols.tla with NaN/Inf values + fault-script trace validation (value faults and exception types) + driven replay + DfolsCtl.tla",
          "Every fault kind at every evaluation index of reference runs (and at the last evaluation the budget allows) across configurations; clauses: no exception unless opted in, budget/bounds, finite evaluated x, finite best retained, injected exception propagates unchanged and no call follows.",
-         "fault positions swept with a stride in the quick tier", "5 C08"),
+         "value-fault positions swept with a stride in the quick tier; LinAlgError / ValueError faults at every position", "5 C08"),
  "C09": ("model_checking", "trace validation: only-after-projection clause + Dykstra stop-rule machine over observed projector calls",
          "Every evaluation point must be the output of a model/solver-site alternating-projection call; the stop rule of each call is decided by the specification from a bit-exact shadow of the routine's own arithmetic; feasibility classes computed with the property's sqrt(p*tol).",
          "user projectors are the harness's own exact projectors", "5 C09"),
- "C10": ("model_checking", "TLC on Dfols.tla (exit-truth invariants, liveness) + Return clauses on traces",
+ "C10": ("model_checking", "TLC on Dfols.tla (exit-truth invariants, liveness) + Return clauses on traces + driven replay + DfolsCtl.tla",
          "C10_* invariants and termination (liveness under weak fairness) model-checked; on traces the flag/message facts are recomputed from arguments and observed events (threshold from the harness's own f(x0), documented rhoend rescaling, call counts, run counts).",
          "thresholds computed from the arguments, never read back from the code", "5 C10"),
  "C11": ("model_checking", "TLC snapshot invariant + trace prediction of jacmin_eval_nums + independent fit class",
@@ -35,12 +35,12 @@ CHECKS = {
  "C18": ("model_checking", "TLC radius-level invariants + diagnostic-table row clauses and live radius writes on traces",
          "Radius invariants model-checked on levels; every row of soln.diagnostic_info and every live write to delta/rho of real runs is checked against the clauses of the property (ranks; documented rhoend rescaling computed by the harness).",
          "", "5 C18"),
- "C19": ("model_checking", "trace equality in TLC: each instance run under two generator states and after an unrelated solve",
-         "Three recorded behaviours per instance must be identical event for event (point digests, rank-encoded values, result digest); caller data compared with deep copies.",
-         "configurations without documented random options", "5 C19"),
+ "C19": ("model_checking", "ConvexInit.tla (TLC: random repair phases unreachable where a deterministic repair exists) replayed state by state into dfols.solve + trace equality in TLC: each instance run under two generator states and after an unrelated solve",
+         "ConvexInit.tla models the convex-constrained initialisation with the generator's choices nondeterministic; TLC proves DetSufficient/DetUnique and enumerates every reachable final set; each initial state is realised on the real solve three times (two generator states, after an unrelated solve) and the evaluation sequences must be bit-identical where the random phases are unreachable. Solver corpus: three recorded behaviours per instance (each in a process of its own) must be identical event for event (digests of the raw events, result digest); caller data compared with deep copies.",
+         "configurations without documented random options; ConvexInit.tla abstracts projected coordinate steps to their own axis", "5 C19 and 0.2"),
  "C05": ("exploration", "Problems.tla KKT-pattern enumeration -> constructed optimum -> validated solver trace with final optimality clause",
          "TLC enumerates every KKT pattern (free / at lower / at upper per coordinate x shape x x0 placement x scaling x point count x conditioning); instances are built so that the optimality conditions hold by construction at a known x*; the real solver (default budget) runs under the recorder, the trace is validated against DfolsTrace.tla and the final clauses require feasibility, the success flag and obj - f* <= 1e-6(1+f*). TLA+ does not decide convergence: exploration level.",
-         "n <= 3 (quick) / 4 (thorough), cond <= 1e3; optimum known by construction", "5 C05 and 2.4"),
+         "patterns enumerated for n <= 3 (quick) / 4 (thorough), dimensions 8-13 sampled; cond <= 1e3; optimum known by construction; one known finding (linear-algebra exit at the optimum with many active bounds)", "5 C05 and 2.4"),
  "C06": ("exploration", "Problems.tla subgradient-pattern enumeration -> constructed regularised optimum -> validated solver trace",
          "As C05 for l1 / l2-norm regularisers (positive / negative / zero-strict / zero-at-kink / bound-active patterns), lambda over 3 decades, argsh/argsprox pass-through checked; final clauses: objective within 1e-3(1+F*), success flag.",
          "n <= 3, cond <= 1e2; the success-flag clause has one known finding (slow-progress warning at the optimum)", "5 C06 and 2.4"),
